@@ -253,6 +253,8 @@ def check(ctx):
                     check_replay_closure(ctx, prog, R, t, fk)
         if not replay_ok:
             replay_ok = check_replay_loop(ctx, prog, R, rb, good_app, fk)
+        if not replay_ok:
+            replay_ok = check_replay_rotation(ctx, prog, R, rb, good_app, fk)
         ctx.check(replay_ok, "C02.c", "%s:replay-present" % fk, R.loc(rb),
                   "detached queue is replayed with an in-order retain", "no in-order replay (VecDeque::retain) of the detached queue found")
 
@@ -687,6 +689,104 @@ def check_replay_loop(ctx, prog, R, rb, good_app, fk):
                         pol = all(R.dominates(eq_arm, r) for r in rc)
         ctx.check(pol, "C02.c", "%s:runs-only-equal-commands" % ck, R.loc(h),
                   "an element is replayed only on the arm where its command equals the finished command",
+                  "the replay runs postponed commands whose target is NOT the system that just finished (they are still busy or unrelated)")
+        ctx.check(okeq, "C02.c", "%s:matches-on-command-identity" % ck, R.loc(h),
+                  "replay selects elements by comparing their command with the finished command",
+                  "replay loop does not compare the element's command with the finished command")
+        ctx.check(R.dominates(lib.call_target(R, rb), h) and any(path_hits(R, h, a) for a in good_app),
+                  "C02.c", "%s:replay-between-detach-and-reattach" % fk, R.loc(h),
+                  "replay traverses the detached queue between remove() and append()", "replay is not between queue.remove() and queue.append()")
+        return True
+    return False
+
+
+def check_replay_rotation(ctx, prog, R, rb, good_app, fk):
+    """Rotation form of the replay: one full turn of the detached queue,
+
+        for _ in 0..q.len() { let Some(e) = q.pop_front() else { break }; if e.command != command { q.push_back(e); continue } runner(e..) }
+
+    It is equivalent to `retain` iff: the number of turns is the queue's length taken before the loop; every turn pops one
+    element from the front and does exactly one of KEEP (push the *popped* element to the back) and RUN; nothing else
+    mutates `q` in the loop. Every initial element is then visited exactly once, in order, and the kept ones are re-appended
+    in visit order (behind nothing, since every initial element has been popped by then): relative order is preserved. The
+    per-element obligations carry the same keys as the closure and index-scan forms."""
+    import loops as LP
+    ck = lib.fkey(R) + "::replay"
+    on_q = lambda op: lib.originates_from_call(R, op, rb)
+    for L in LP.find_loops(R):
+        if L.driver is None:
+            continue
+        lbody, h = L.blocks, L.header
+        rc = [b for b, t, fr in R.iter_calls(lbody) if fr and mir.fn_name(fr) == R.path]
+        pops = [(b, t) for b, t, fr in R.iter_calls(lbody) if fr and mir.strip_generics(mir.fn_name(fr)).endswith("VecDeque::pop_front") and on_q(t["args"][0])]
+        pushes = [(b, t) for b, t, fr in R.iter_calls(lbody) if fr and mir.strip_generics(mir.fn_name(fr)).endswith("VecDeque::push_back") and on_q(t["args"][0])]
+        if not rc or len(pops) != 1 or len(pushes) != 1:
+            continue
+        dfr = op_fn(R.blocks[L.driver]["term"]["func"])
+        if dfr is None or "Range<" not in (mir.fn_name(dfr) + " ".join(dfr.get("args") or [])):
+            continue
+        ctx.touch(R, states=len(lbody))
+        # the bound: Range { start: 0, end: q.len() } with the len() taken before the loop
+        rng = None
+        for o in origins(R, R.blocks[L.driver]["term"]["args"][0]):
+            if o[0] == "agg" and len(o) == 3:
+                ag = R.blocks[o[1]]["stmts"][o[2]]["rv"]["agg"]
+                if ag.get("adt", "").endswith(("ops::range::Range", "ops::Range")) and len(ag.get("ops", [])) == 2:
+                    rng = ag
+        ok_bound = False
+        if rng is not None:
+            fs = dict(zip(rng.get("fields", ["start", "end"]), rng["ops"]))
+            eo = origins(R, fs.get("end")) if fs.get("end") else set()
+            lens = [b for b, t, fr in R.iter_calls() if fr and mir.strip_generics(mir.fn_name(fr)).endswith("VecDeque::len") and on_q(t["args"][0])
+                    and b not in lbody and R.dominates(b, h)]
+            ok_bound = lib.const_val(fs.get("start")) == 0 and bool(eo) and all(o[0] == "call" and o[1] in lens for o in eo)
+        # nothing else touches the detached queue inside the loop
+        other = [R.loc(b) for b, t, fr in R.iter_calls(lbody) if fr and t["args"] and on_q(t["args"][0]) and b not in (pops[0][0], pushes[0][0])
+                 and not mir.strip_generics(mir.fn_name(fr)).endswith(("VecDeque::len", "VecDeque::is_empty"))]
+        # exits: the range's exhaustion (the driver's own arm) and the `else { break }` of the pop
+        pop_none = [fail_t for (sb, ok_t, fail_t) in lib.result_arms(R, pops[0][0])]
+        ok_exit = all(s_ in pop_none or x == pops[0][0] for (x, s_) in L.exits)
+        ctx.check(ok_bound and not other and ok_exit, "C02.c", "%s:index-scan-well-formed" % ck, R.loc(h),
+                  "replay loop turns the detached queue once: 0..len turns with the length taken before the loop, only pop_front / push_back on the queue",
+                  "the replay loop over the detached queue is not one full turn of it (bound, extra exit, or another operation on the queue: %s)" % other)
+        if not (ok_bound and not other and ok_exit):
+            return True
+        pop_b, push_b = pops[0][0], pushes[0][0]
+        some_heads = [ok_t for (sb, ok_t, fail_t) in lib.result_arms(R, pop_b)]
+        start = some_heads[0] if some_heads else lib.call_target(R, pop_b)
+        one = iteration_counts(R, lbody, start, h, [push_b] + rc) == {1}
+        ctx.check(one, "C02.c", "%s:each-element-dropped-xor-kept" % ck, R.loc(h),
+                  "every turn either runs the popped element or pushes it to the back, never both or neither",
+                  "a turn of the replay loop neither runs nor keeps the popped element (or does both): a postponed command is lost or duplicated")
+        ctx.check(R.blocks[push_b]["term"]["args"] and lib.originates_from_call(R, R.blocks[push_b]["term"]["args"][1], pop_b), "C02.c",
+                  "%s:drop-preserves-order" % ck, R.loc(push_b), "the element pushed to the back is the one just popped from the front",
+                  "the replay loop pushes back something other than the popped element")
+        ctx.check(len(rc) == 1 and not path_within(R, lbody, rc[0], rc[0], h, strict=True), "C02.c", "%s:at-most-one-run-per-element" % ck, R.loc(rc[0]),
+                  "replay loop calls the runner at most once per element", "replay loop calls the runner more than once per element")
+        for b in rc:
+            t = R.blocks[b]["term"]
+            ok = all(lib.originates_from_call(R, t["args"][i], pop_b, (f,)) or
+                     all(o[0] == "call" and o[1] == pop_b and o[-1] == f for o in origins(R, t["args"][i])) for i, f in ((1, ".command"), (2, ".setup"), (3, ".cleanup")))
+            ctx.check(ok, "C02.c", "%s:replays-element-own-fields" % ck, R.loc(b),
+                      "replay passes the element's own command/setup/cleanup", "replay calls the runner with fields that are not the element's own")
+        ctx.check(not any(path_within(R, lbody, r, push_b, h) for r in rc), "C02.c", "%s:keep-only-if-not-run" % ck, R.loc(push_b),
+                  "element is kept only if it did not run", "replay loop keeps a command it has just run (would run twice)")
+        ctx.ok("C02.c", "%s:drop-only-after-run" % ck, R.loc(pop_b), "a popped element is either pushed back or run in the same turn (each-element-dropped-xor-kept)")
+        ctx.ok("C02.c", "%s:both-outcomes" % ck, R.loc(h), "loop has a run and a keep outcome")
+        pol = okeq = False
+        for b, t, fr in R.iter_calls(lbody):
+            if fr and lib.tail(mir.fn_name(fr), 1) in ("eq", "ne") and len(t["args"]) >= 2:
+                o0, o1 = origins(R, t["args"][0]), origins(R, t["args"][1])
+                el = any(o[0] == "call" and o[1] == pop_b and ".command" in o for o in o0 | o1)
+                if el and any(x[0] == "arg" and x[1] == 2 for x in o0 | o1):
+                    okeq = True
+                    arms = lib.bool_arms(R, b)
+                    if arms:
+                        eq_arm = arms[0][1] if lib.tail(mir.fn_name(fr), 1) == "eq" else arms[0][2]
+                        ne_arm = arms[0][2] if lib.tail(mir.fn_name(fr), 1) == "eq" else arms[0][1]
+                        pol = all(R.dominates(eq_arm, r) for r in rc) and R.dominates(ne_arm, push_b)
+        ctx.check(pol, "C02.c", "%s:runs-only-equal-commands" % ck, R.loc(h),
+                  "an element is replayed only on the arm where its command equals the finished command, and kept on the other",
                   "the replay runs postponed commands whose target is NOT the system that just finished (they are still busy or unrelated)")
         ctx.check(okeq, "C02.c", "%s:matches-on-command-identity" % ck, R.loc(h),
                   "replay selects elements by comparing their command with the finished command",
